@@ -1,5 +1,6 @@
 """C07 - until()/run(till) end the block exactly when the notification fires, else never"""
 import copy
+import json
 import random
 
 from .. import bootstrap  # noqa: F401
@@ -69,8 +70,11 @@ def gen_cond(rng, tasks, depth=0):
     if kind == 'flag':
         return {'k': 'flag', 'f': rng.randrange(3), 'neg': rng.random() < 0.3}
     if kind == 'tracked':
-        return {'k': 'tracked', 'i': 0, 'cmp': rng.choice(['lt', 'le', 'eq', 'ne', 'ge', 'gt']),
-                'v': rng.randint(0, 3)}
+        spec = {'k': 'tracked', 'i': 0, 'cmp': rng.choice(['lt', 'le', 'eq', 'ne', 'ge', 'gt']),
+                'v': rng.randint(0, 3) if rng.random() < 0.7 else {'i': 1}}
+        # (the negation of a comparison is a comparison object of its own)
+        return {'k': 'inv', 'a': spec} if rng.random() < (
+            0.5 if isinstance(spec['v'], dict) else 0.2) else spec
     if kind == 'done':
         if not tasks:
             return {'k': 'flag', 'f': 0, 'neg': False}
@@ -128,6 +132,9 @@ def gen_block(rng, ids, tasks, depth, shared=None):
         body.insert(rng.randint(0, len(body)), gen_block(rng, ids, tasks, depth + 1, shared))
     if rng.random() < 0.1:
         body.append({'op': 'wait', 'n': {'k': 'eternity'}, 'id': ids('w')})
+    elif rng.random() < 0.25 or '"i": 1' in json.dumps(step['n']):
+        # a body that outlasts every change of the scenario: only the notification can end it
+        body.append({'op': 'wait', 'n': {'k': 'delay', 'd': 7}, 'id': ids('w')})
     if rng.random() < 0.12:
         # the body fails at some point (possibly before its first suspension); caught outside
         body.insert(rng.randint(0, len(body)),
@@ -141,7 +148,7 @@ def gen_block(rng, ids, tasks, depth, shared=None):
 def build(case):
     rng = random.Random('%s/%s/c07' % (case['seed'], case['index']))
     ids = Ids()
-    objects = {'flags': 3, 'tracked': [0]}
+    objects = {'flags': 3, 'tracked': [0, 2]}
     times = rng.sample(GRID, rng.randint(2, 6))
     times.sort()
     n_tasks = rng.randint(0, 2)
@@ -172,8 +179,9 @@ def build(case):
             changes.append({'t': when, 'what': 'flag', 'i': flag, 'v': value})
         else:
             tracked = rng.randint(0, 3)
-            driver.append({'op': 'settracked', 'i': 0, 'v': tracked, 'id': ids('d')})
-            changes.append({'t': when, 'what': 'tracked', 'i': 0, 'v': tracked})
+            which = 0 if rng.random() < 0.5 else 1      # (1 is only ever a right-hand side)
+            driver.append({'op': 'settracked', 'i': which, 'v': tracked, 'id': ids('d')})
+            changes.append({'t': when, 'what': 'tracked', 'i': which, 'v': tracked})
     roots = []
     if tasks:
         children = []
